@@ -112,6 +112,8 @@ def writable_cols(dv, t, protected=None, allow_protected=True):
 def _total_value(g, dv, col):
   """Value for a column in use as key/sort/group-by: right-typed, comparable, non-null, no alt
   text (D0: keys and sort columns are total)."""
+  if g.cfg.get("blank_sort_p") and g.rng.random() < g.cfg["blank_sort_p"] and col.pure not in ("Ref", "RefList"):
+    return None          # blanks have a defined place in every order (first), several of them tie
   for _ in range(8):
     v = value_for(g, dv, col, allow_alt=False)
     if v is not None or col.pure in ("ChoiceList", "RefList"):
@@ -939,7 +941,27 @@ def op_error_trigger(g, dv, protected):
             "recalcWhen": 0}]]
 
 
+def op_add_field(g, dv, protected):
+  """Show one more column of a section's table in that section (what dragging a column into a
+  widget does) -- including the `group` column of a summary table, which no widget shows by
+  itself."""
+  secs = [(r, rec) for r, rec in dv.records("_grist_Views_section") if rec.get("tableRef") in dv.table_by_ref]
+  if not secs:
+    return None
+  sid, sec = g.rng.choice(secs)
+  t = dv.table_by_ref[sec["tableRef"]]
+  shown = set(rec["colRef"] for _r, rec in dv.records("_grist_Views_section_field") if rec["parentId"] == sid)
+  cands = [c for c in t.cols.values() if c.ref not in shown and c.colId != "manualSort"
+           and not c.colId.startswith("gristHelper_")]
+  if not cands:
+    return None
+  groups = [c for c in cands if t.is_summary and c.colId == "group"]
+  c = g.rng.choice(groups) if groups and g.rng.random() < 0.6 else g.rng.choice(cands)
+  return [["AddRecord", "_grist_Views_section_field", None, {"parentId": sid, "colRef": c.ref}]]
+
+
 OPS = {
+  "add_field": op_add_field,
   "error_trigger": op_error_trigger,
   "ref_trigger": op_ref_trigger,
   "derived_trigger": op_derived_trigger,
@@ -980,7 +1002,7 @@ DEFAULT_WEIGHTS = {
   "add_view_section": 1, "add_summary": 3, "update_summary": 2, "detach_summary": 1,
   "add_summary_formula": 1, "remove_view_things": 1, "add_view": 1, "page_indent": 1, "set_sort": 1,
   "add_reverse": 1, "display_formula": 1, "add_rule": 1, "duplicate_table": 1,
-  "trigger_column": 1, "derived_trigger": 0, "ref_trigger": 0, "error_trigger": 0,
+  "trigger_column": 1, "derived_trigger": 0, "ref_trigger": 0, "error_trigger": 0, "add_field": 0,
 }
 
 
@@ -1016,6 +1038,7 @@ def gen_user_actions(g, dv, weights, protected=None, tries=12):
 
 MIX_SUMMARY_OPS = not os.environ.get("GSIM_NO_MIX_SUMMARY_OPS")
 RECORD_OPS = {"add_records", "update_records", "remove_records"}
+ALONE_OPS = {"add_field"}
 SUMMARY_OPS = {"add_summary", "update_summary", "detach_summary", "add_summary_formula"}
 
 
@@ -1109,6 +1132,9 @@ def gen_bundle(g, dv, weights, width=None):
         break
       ts = tables_of(dv, a)
       if ts & schema_touched:
+        continue
+      if names and (n in ALONE_OPS or any(nm in ALONE_OPS for nm in names)):
+        # raw metadata records naming rows by id: valid only against the state they were made for
         continue
       if not g.cfg.get("mix_summary_ops", MIX_SUMMARY_OPS) and names and (
           n in SUMMARY_OPS or any(nm in SUMMARY_OPS for nm in names)):
